@@ -29,6 +29,8 @@ def main(run):
     work = Work()
     quick = run.tier == "quick"
     n = 80 if quick else 1500
+    import isel
+    run.extra["isel_tables"] = isel.gen_tables()
     ok = run.proof("Props/C02.v")
     progs, feats = c01.gen_programs(run, n, 25 if quick else 60, 3 if quick else 5, False)
     nat = c01.compile_run_all(progs, work, "native", "n")
@@ -72,10 +74,11 @@ def main(run):
         where, log = run.proof_failure
         found = False
         try:
-            import isel
-            for w in isel.search("both"):
-                found = True
-                run.violation("isel:%s" % w["key"], "back ends select different semantics for %s" % w["key"], w)
+            for be in ("qbe", "wasm"):
+                for w in isel.search(be):
+                    found = True
+                    run.violation("isel:%s:%s" % (be, w.get("key")), "%s instruction selection for %s deviates from the reference (operands %s: expected %s, got %s)"
+                                  % (be, w.get("key"), w.get("operands"), w.get("expected"), w.get("got")), w, no_input=(w.get("operands") is None))
         except Exception as e:
             log += "\n(isel.search failed: %r)" % (e,)
         if not found:
